@@ -318,6 +318,12 @@ pub fn prepare(w: &Workload) -> Prep {
         Ok(Err(e)) => return Prep::Discard(e),
         Ok(Ok(r)) => r,
     };
+    prepare_program(w, program, io_keys)
+}
+
+/// Reference run of a given program text (the text normally comes from the real compiler; the
+/// stub's self-tests pass hand-written programs).
+pub fn prepare_program(w: &Workload, program: String, io_keys: Option<Vec<u32>>) -> Prep {
     let forms = match read_all(&program) {
         Ok(f) => f,
         Err(e) => return Prep::Harness(format!("emitted program of a benign workload is unreadable: {e}\n{program}")),
@@ -1203,4 +1209,138 @@ pub fn show_run(seed: u64, index: u64) {
         Prep::Discard(e) | Prep::Harness(e) => println!("not ready: {e}"),
         Prep::Violation(v) => println!("violation at prepare: {v:?}"),
     }
+}
+
+// ---------------------------------------------------------------------------------------------
+// self-tests of the stub runtime and of the oracles (hand-written programs, no compiler involved)
+
+fn selftest_workload(threads: usize, files: usize) -> Workload {
+    let mut rng = Rng::new(42);
+    let fs: Vec<FileRec> = (0..files).map(|i| gen_file(&mut rng, i, 4)).collect();
+    let mut partition = vec![vec![]; threads];
+    for f in 0..files {
+        partition[f % threads].push(f);
+    }
+    Workload { expr: String::new(), files: fs, threads, partition, max_chunks: 1, chunk_seed: 1, hash_key: 1 }
+}
+
+fn wrap_program(defs: &str, policy: &str) -> String {
+    format!(
+        "(use-modules (lipe) (lipe find))\n(let* ({defs})\n (dynamic-wind (lambda () #t) (lambda () (lipe-scan \"/dev/x\" (lipe-getopt-client-mount-path) (lambda () {policy}) (lipe-getopt-required-attrs) 2)) (lambda () #t)))"
+    )
+}
+
+/// Search up to `tries` schedules; returns the class of the first violation found.
+fn selftest_search(w: &Workload, program: &str, io_keys: Option<Vec<u32>>, tries: usize) -> Result<Option<String>, String> {
+    match prepare_program(w, program.to_string(), io_keys) {
+        Prep::Ready(p) => {
+            let mut rng = Rng::new(7);
+            for _ in 0..tries {
+                let ex = execute(w, &p, pick_strategy(&mut rng, p.seq_events * 2 + 8), rng.next_u64());
+                match judge(w, &p, &ex).0 {
+                    Verdict::Ok => {}
+                    Verdict::Violation(v) => return Ok(Some(v.class)),
+                    Verdict::Harness(e) => return Err(e),
+                }
+            }
+            Ok(None)
+        }
+        Prep::Violation(v) => Ok(Some(v.class)),
+        Prep::Harness(e) | Prep::Discard(e) => Err(e),
+    }
+}
+
+/// Returns a list of (name, passed, detail).
+pub fn selftests() -> Vec<(&'static str, bool, String)> {
+    let mut out = vec![];
+    let w = selftest_workload(2, 4);
+    let w3 = selftest_workload(3, 6);
+    let mut case = |name: &'static str, w: &Workload, program: String, keys: Option<Vec<u32>>, tries: usize, expect: Option<&[&str]>| {
+        let r = selftest_search(w, &program, keys, tries);
+        let (ok, detail) = match (&r, expect) {
+            (Ok(None), None) => (true, "no violation, as expected".to_string()),
+            (Ok(Some(c)), Some(classes)) if classes.contains(&c.as_str()) => (true, format!("found {c}, as expected")),
+            (other, _) => (false, format!("got {other:?}, expected {expect:?}")),
+        };
+        out.push((name, ok, detail));
+    };
+    let plain_ok = "(p (current-output-port)) (m (make-mutex)) (pr (make-printer p m #\\x0a))";
+    case("plain printer, one mutex: never torn", &w, wrap_program(plain_ok, "(call-with-relative-path pr)"), None, 3000, None);
+    let plain_two_mutexes = "(p (current-output-port)) (m (make-mutex)) (m2 (make-mutex)) (pr (make-printer p m #\\x0a)) (pr2 (make-printer p m2 #\\x0a))";
+    case(
+        "plain printers with different mutexes: torn line is found",
+        &w,
+        wrap_program(plain_two_mutexes, "(if (= (logand (ino) 1) 0) (call-with-relative-path pr) (call-with-relative-path pr2))"),
+        None,
+        3000,
+        Some(&["torn-line", "mixed-line"]),
+    );
+    let frame_ok = "(p (current-output-port)) (m (make-mutex)) (fr (lambda (s d) (with-mutex m (display s p) (display (string #\\x1e d) p)))) (pr (lambda (l) (fr l #\\x03)))";
+    case("framed, both writes under the lock: never torn", &w3, wrap_program(frame_ok, "(call-with-relative-path pr)"), Some(vec![3]), 3000, None);
+    let frame_bad = "(p (current-output-port)) (m (make-mutex)) (fr (lambda (s d) (with-mutex m (display s p)) (display (string #\\x1e d) p))) (pr (lambda (l) (fr l #\\x03)))";
+    case(
+        "framed, trailer outside the lock: mixed/torn frame is found",
+        &w3,
+        wrap_program(frame_bad, "(call-with-relative-path pr)"),
+        Some(vec![3]),
+        3000,
+        Some(&["mixed-frame", "torn-frame", "records-lost-or-altered"]),
+    );
+    let frame_nolock = "(p (current-output-port)) (fr (lambda (s d) (display s p) (display (string #\\x1e d) p))) (pr (lambda (l) (fr l #\\x03)))";
+    case(
+        "framed, no lock at all: found",
+        &w,
+        wrap_program(frame_nolock, "(call-with-relative-path pr)"),
+        Some(vec![3]),
+        3000,
+        Some(&["mixed-frame", "torn-frame", "records-lost-or-altered"]),
+    );
+    let relock = "(p (current-output-port)) (m (make-mutex)) (fr (lambda (s d) (with-mutex m (display s p) (display (string #\\x1e d) p)))) (pr (lambda (l) (with-mutex m (fr l #\\x03))))";
+    case(
+        "relock of a non-recursive mutex: error even sequentially",
+        &w,
+        wrap_program(relock, "(call-with-relative-path pr)"),
+        Some(vec![3]),
+        10,
+        Some(&["policy-raises-error-sequentially"]),
+    );
+    let ab_ba = "(p (current-output-port)) (a (make-mutex)) (b (make-mutex)) (pr1 (lambda (l) (with-mutex a (with-mutex b (display l p) (display #\\x0a p))))) (pr2 (lambda (l) (with-mutex b (with-mutex a (display l p) (display #\\x0a p)))))";
+    case(
+        "two mutexes taken in opposite orders: deadlock is found",
+        &w,
+        wrap_program(ab_ba, "(if (= (logand (ino) 1) 0) (call-with-relative-path pr1) (call-with-relative-path pr2))"),
+        None,
+        5000,
+        Some(&["deadlock"]),
+    );
+    let ab_ab = "(p (current-output-port)) (a (make-mutex)) (b (make-mutex)) (pr1 (lambda (l) (with-mutex a (with-mutex b (display l p) (display #\\x0a p))))) (pr2 (lambda (l) (with-mutex a (with-mutex b (display l p) (display #\\x0a p)))))";
+    case(
+        "two mutexes always taken in the same order: no deadlock, no tear",
+        &w,
+        wrap_program(ab_ab, "(if (= (logand (ino) 1) 0) (call-with-relative-path pr1) (call-with-relative-path pr2))"),
+        None,
+        3000,
+        None,
+    );
+    let racy_flag = "(p (current-output-port)) (m (make-mutex)) (first #t) (pr (make-printer p m #\\x0a)) (hd (lambda (l) (if first (begin (set! first #f) (pr \"HEADER\"))) (pr l)))";
+    case(
+        "unsynchronised 'print header once' flag: duplicated or misplaced record is found",
+        &w,
+        wrap_program(racy_flag, "(call-with-relative-path hd)"),
+        None,
+        5000,
+        Some(&["records-lost-or-altered"]),
+    );
+    let explicit = "(p (current-output-port)) (m (make-mutex)) (pr (lambda (l) (lock-mutex m) (display l p) (display #\\x0a p) (unlock-mutex m)))";
+    case("explicit lock-mutex/unlock-mutex around both writes: never torn", &w3, wrap_program(explicit, "(call-with-relative-path pr)"), None, 3000, None);
+    let explicit_bad = "(p (current-output-port)) (m (make-mutex)) (pr (lambda (l) (lock-mutex m) (display l p) (unlock-mutex m) (display #\\x0a p)))";
+    case(
+        "explicit unlock before the terminator: found",
+        &w3,
+        wrap_program(explicit_bad, "(call-with-relative-path pr)"),
+        None,
+        3000,
+        Some(&["mixed-line", "torn-line"]),
+    );
+    out
 }
